@@ -25,6 +25,9 @@ AcceptRet == /\ IsEvent("AcceptRet") /\ Ev.conn \notin DOMAIN conns
              /\ conns' = [c \in DOMAIN conns \cup {Ev.conn} |-> IF c = Ev.conn THEN [closed |-> FALSE, peerClosed |-> "no", up |-> FALSE] ELSE conns[c]]
              /\ UNCHANGED <<svcs, ctxdone, accerr, loopret, hcanc>>
 AcceptErr == /\ IsEvent("AcceptErr") /\ accerr' = Ev.kind
+             \* what server.NetAccepter reports by itself (not a failure of the listener underneath) is a closed-listener
+             \* error, and it comes only when the context has ended
+             /\ Imp("C20", (Ev.net /\ ~Ev.injected) => (Ev.kind = "closing" /\ ctxdone))
              /\ UNCHANGED <<conns, svcs, ctxdone, loopret, hcanc>>
 CtxCancel == /\ IsEvent("CtxCancel") /\ ctxdone' = TRUE /\ UNCHANGED <<conns, svcs, accerr, loopret, hcanc>>
 
